@@ -78,8 +78,18 @@ def raw_attribute(prog):
         if m and ci.find_method(m.group(1)) is None and ci.find_prop(m.group(1)) is None and ci.find_plain_prop(m.group(1)) is None:
             cands.add(m.group(1))
     if len(cands) > 1:
-        raise AnalysisError('SubPackets.__hashbytearray__ returns several attributes verbatim: %s' % sorted(cands))
-    return next(iter(cands)) if cands else None
+        # several attributes are replayed (e.g. a cache next to the capture): the capture is the one SubPackets.parse fills from its
+        # buffer; returning any other attribute while the capture is present is then a C05.2 finding, not an analysis gap
+        pf = ci.methods.get('parse')
+        fed = set()
+        if pf is not None and len(pf.params) > 1:
+            for s in Interp(prog, Scenario(args={pf.params[1]: Sym('packet')}, inline=noinline)).run(pf):
+                for pth, v, l, _ in s.stores:
+                    m = re.match(r'^%s\.(\w+)$' % re.escape(pf.params[0]), pth)
+                    if m and m.group(1) in cands and re.search(r'\bpacket\b', v):
+                        fed.add(m.group(1))
+        cands = fed or cands
+    return sorted(cands)[0] if cands else None
 
 
 def _attr_store_sites(prog, attr):
@@ -134,6 +144,7 @@ def run(rep, prog, tier):
     rep.saw(fn=hb)
 
     check_capture(rep, prog, ci, raw)
+    check_no_normalisation_on_load(rep, prog, ci, raw)
     check_replay(rep, prog, ci, hb, raw, R)
     check_other_stores(rep, prog, ci, raw)
     check_consumers(rep, prog)
@@ -181,6 +192,87 @@ def check_capture(rep, prog, ci, raw):
         later = [e for e in s.events[si + 1:] if (e[0] == 'store' and e[1] == R) or hashed_file(e)]
         rep.check(not later, 'C05.1', 'SubPackets.parse', 'later hashed stores %s' % [e[1] for e in later],
                   'nothing after the capture may touch the hashed area', where=pf.where)
+
+
+LOAD_NAMES = ('parse', '__or__', '__ior__', '__ror__', 'from_blob', 'from_file', 'load', '__new__')
+
+
+def _load_path_functions(prog):
+    """Functions that run while an object is being read: every `parse`, the composition operators the readers use to assemble
+    what they parsed, the from_* constructors - and whatever program function those call by name (self.m(...), helper(...)),
+    two levels deep.  New private helpers were already inlined by the canonicaliser."""
+    tops = list(prog.all_functions())
+    by_name = {}
+    for f in tops:
+        by_name.setdefault(f.name, []).append(f)
+    seen, work = {}, [(f, 0) for f in tops if f.name in LOAD_NAMES or f.name.startswith('_parse')]
+    while work:
+        f, d = work.pop()
+        if id(f) in seen:
+            continue
+        seen[id(f)] = f
+        if d >= 2:
+            continue
+        for n in ast.walk(f.node):
+            if isinstance(n, ast.Call):
+                nm = n.func.attr if isinstance(n.func, ast.Attribute) else n.func.id if isinstance(n.func, ast.Name) else None
+                # only private helpers are followed by name: public API names (sign, bind, addnew ...) are not part of loading
+                if nm and nm.startswith('_') and not nm.startswith('__') and nm in by_name:
+                    work.extend((g, d + 1) for g in by_name[nm])
+    return list(seen.values())
+
+
+def check_no_normalisation_on_load(rep, prog, ci, raw):
+    """"Received" means no normalisation step between parse and verify: on the load path nothing may be filed into the hashed
+    area of a signature (addnew with hashed other than the literal False, a store through the mapping interface of a
+    `.subpackets` object under a key that is not a literal unhashed name, update / setdefault on it) and nothing but
+    SubPackets.parse may write the capture.  The capture is invalidated only by the public mutation API reached from outside."""
+    n = 0
+    for fn in _load_path_functions(prog):
+        if (fn.cls is ci and fn.name == 'parse') or _only_inlined_helper(prog, fn):
+            continue                    # C05.1 decides the one function that files received subpackets (new helpers of it are inlined there)
+        for node in ast.walk(fn.node):
+            w = '%s:%d' % (fn.module.relpath, getattr(node, 'lineno', 0))
+            if isinstance(node, ast.Call) and isinstance(node.func, ast.Attribute) and node.func.attr == 'addnew':
+                n += 1
+                hashed = node.args[1] if len(node.args) > 1 else next((k.value for k in node.keywords if k.arg == 'hashed'), None)
+                spread = any(k.arg is None for k in node.keywords)
+                unhashed = (hashed is None and not spread) or (isinstance(hashed, ast.Constant) and hashed.value is False)
+                rep.check(unhashed, 'C05.1', fn.qualname, 'addnew while loading: %s' % ast.unparse(node)[:100],
+                          'a subpacket is filed into the hashed area while the object is being read: the received hashed-area octets are '
+                          'dropped and the signature is afterwards hashed (and written back) with octets that were never on the wire',
+                          where=w, expected='no hashed subpacket is added between parse and verify', found=ast.unparse(node)[:160])
+            tgt = None
+            if isinstance(node, (ast.Assign, ast.AugAssign, ast.AnnAssign)):
+                tgts = node.targets if isinstance(node, ast.Assign) else [node.target]
+                for t in tgts:
+                    for x in ([t] + list(t.elts) if isinstance(t, (ast.Tuple, ast.List)) else [t]):
+                        if isinstance(x, ast.Subscript) and isinstance(x.value, ast.Attribute) and x.value.attr == 'subpackets':
+                            tgt = x
+                        if isinstance(x, ast.Attribute) and x.attr == raw:
+                            n += 1
+                            rep.violation('C05.1', fn.qualname, 'writes %s while loading' % raw,
+                                          'only SubPackets.parse may write the received hashed-area octets while an object is being read',
+                                          where=w, found=ast.unparse(node)[:160])
+            if isinstance(node, ast.Call) and isinstance(node.func, ast.Attribute) and isinstance(node.func.value, ast.Attribute) and \
+                    node.func.value.attr == 'subpackets' and node.func.attr in ('__setitem__', 'update', 'setdefault'):
+                tgt = node
+            if isinstance(node, ast.Call) and dotted(node.func) == 'setattr' and len(node.args) >= 2 and isinstance(node.args[1], ast.Constant) and \
+                    node.args[1].value == raw:
+                n += 1
+                rep.violation('C05.1', fn.qualname, 'setattr %s while loading' % raw,
+                              'only SubPackets.parse may write the received hashed-area octets while an object is being read', where=w,
+                              found=ast.unparse(node)[:160])
+            if tgt is not None:
+                n += 1
+                key = tgt.slice if isinstance(tgt, ast.Subscript) else (tgt.args[0] if tgt.args else None)
+                lit_unhashed = isinstance(key, ast.Constant) and isinstance(key.value, str) and not key.value.startswith('h_') and \
+                    (isinstance(tgt, ast.Subscript) or tgt.func.attr == '__setitem__')
+                rep.check(lit_unhashed, 'C05.1', fn.qualname, 'files a subpacket while loading: %s' % ast.unparse(tgt)[:100],
+                          'a store through the mapping interface of a subpacket set while the object is being read may file a hashed '
+                          'subpacket, which drops the received hashed-area octets', where=w,
+                          expected='no store under an h_ key between parse and verify', found=ast.unparse(node)[:160])
+    rep.ok('C05.1', 'load path', 'no hashed filing / capture write outside SubPackets.parse on %d load-path sites' % n)
 
 
 # ------------------------------------------------------------------------------------------------ C05.2
